@@ -104,12 +104,13 @@ def gen_atoms(rng, n, tag="S", id_base=1000.0, cell="ortho", kinds=None, tables=
         if labs:
             kw["extra_%s_labels" % kind] = list(labs)
             if terms:
-                kw["extra_%s_fields" % kind] = [["%s%s%d%s" % (tag, kind[0], r, l[-1]) for l in labs] for r in range(len(terms))]
+                # values of different lengths (1-9 characters): fixed-width string arrays must not truncate what they adopt
+                kw["extra_%s_fields" % kind] = [[("%s%s%d%s" % (tag, kind[0], r, l[-1]))[: 1 + (r + len(l)) % 4] + "y" * int(rng.integers(0, 6)) for l in labs] for r in range(len(terms))]
     labs = xl.get("atom") if "atom" in xl else ([l for l in ["_x_atom_a", "_x_atom_%s" % tag] if rng.integers(3) == 0] if extras is None else [])
     if labs:
         kw["extra_atom_labels"] = list(labs)
         if n > 0:
-            kw["extra_atom_fields"] = [["%sa%d%s" % (tag, i, l[-1]) for l in labs] for i in range(n)]
+            kw["extra_atom_fields"] = [[("%sa%d%s" % (tag, i, l[-1]))[: 1 + (i + len(l)) % 4] + "z" * int(rng.integers(0, 6)) for l in labs] for i in range(n)]
     return Atoms(**kw)
 
 
